@@ -7,7 +7,7 @@ import MirVerif.Lemmas.PPMacroFuel
 ## `#if` evaluation
 Full statement (C11 6.10.1p4):
 
-    theorem eval_meets_c11 : ∀ e, c11Eval e ≠ .undef → c2mEval e = c11Eval e
+    `eval_meets_c11 : ∀ e, c11Eval e ≠ .undef → c2mEval e = c11Eval e`
 
 where `c2mEval = c2mEvalG appliedFixes` is the literal model of `eval`/`eval_binop_operands`
 (`c2mir.c:3436-3577`) of the checked tree.  It is FALSE for the tree as it stands
@@ -156,7 +156,7 @@ theorem arg_preexpanded_once (raw exp : List (List Tok)) (i : Nat) (w : Ws) :
 
 /-! `stringify` (`c2mir.c:1778`) / `destringify` (`c2mir.c:1789`).  Full statement
 
-    theorem stringify_roundtrip : ∀ s, destringifyC (stringify s) = s
+    `stringify_roundtrip : ∀ s, destringifyC (stringify s) = s`
 
 is FALSE for the code as it stands (`stringify_roundtrip_false_unrepaired`): after dropping an
 escaping backslash the loop re-examines the escaped character, so `\\\\` (two escaped backslashes)
